@@ -32,7 +32,14 @@ def c11_values_masked_inplace(w):
     return False
 
 
+def c05_absolute_tolerance(w):
+    # fnnls_cholesky: tolerance = 2.2204e-16 * n is absolute; an optimum whose largest entry is within 1e3 of it is truncated
+    return (w.get("monitor") == "kkt.solver.tiny_solution" and w.get("solution_scale_below_absolute_tolerance") is True
+            and float(w.get("reference_max", 1.0)) <= 1e3 * float(w.get("abs_tolerance", 0.0)))
+
+
 CLASSIFIERS = {
+    "c05_absolute_tolerance": c05_absolute_tolerance,
     "c09_iterate_zero_shortcut": c09_iterate_zero_shortcut,
     "c11_values_masked_inplace": c11_values_masked_inplace,
 }
